@@ -36,6 +36,14 @@ def run(repo, rep, tier):
     R2 = sl.closure({'program_retval'})
     bad = sorted(r for r in R2 if any(r == p or r.startswith(p + '.') for p in PRESENTATION) or r.startswith('out.'))
     rep.check('noninterference', 'the running status reads no presentation option', not bad, oa, 'status depends on presentation state: %s' % bad)
+    # the same for the whole chain that produces the exit status (data and control dependence, joined at the call sites)
+    from props import _status
+    for fname, fnode, R in _status.status_slices(repo):
+        rep.saw(fnode)
+        bad = sorted(r for r in R if any(r == p or r.startswith(p + '.') for p in PRESENTATION) or r.startswith('out.') or r in ('is_json_output',))
+        rep.check('noninterference', 'the exit status computed by %s reads no presentation option or output-buffer state' % fname, not bad, fnode,
+                  'the exit status depends on presentation state in %s: %s (the same peer exits differently under -l / -b / -v / -j)' % (fname, bad), stmt='status slice of %s' % fname,
+                  sample={'rule': 'noninterference', 'function': fname, 'slice_size': len(R)})
     # presentation reads are confined to padding/prefix/verbosity of continuation lines
     pres_reads = [n for n in walk_no_nested(oa) if isinstance(n, ast.Attribute) and unparse(n) in ('out.batch', 'out.verbose')]
     rep.floor('noninterference', 'presentation reads in output_algorithm', len(pres_reads), 2)
